@@ -30,8 +30,26 @@ InvCfg(k) == [k EXCEPT !.shapeIn = k.shapeOut, !.shapeOut = k.shapeIn]
 AdjCfg(k) == [k EXCEPT !.shapeIn = k.shapeOut, !.shapeOut = k.shapeIn, !.dir = "adjoint", !.c = 0]
 Grows(k)   == \A a \in 1..Len(k.shapeIn) : k.shapeOut[a] >= k.shapeIn[a]
 
+\* operator geometry for every combination of nodes-on-boundary flags of domain (dL, dR) and range (rL, rR);
+\* the domain is [GeoLo, hi] with cell side GeoH
+GeoLo == <<-1, 1>>
+GeoH  == <<1, 2>>
+FlagSeq == [i \in 1..16 |-> <<(i - 1) \div 8, ((i - 1) \div 4) % 2, ((i - 1) \div 2) % 2, (i - 1) % 2>>]
+GeoCase(k, f) ==
+  LET m == k.shapeIn[1]  n == k.shapeOut[1]  o == k.offs[1]
+      hi == QAdd(GeoLo, QMul(Q(CellsB2(m, f[1], f[2]), 2), GeoH))
+  IN  [dL |-> f[1], dR |-> f[2], rL |-> f[3], rR |-> f[4], lo |-> GeoLo, hi |-> hi, off |-> o,
+       cell   |-> CellSideB(GeoLo, hi, m, f[1], f[2]),
+       node0  |-> RangeNode0B(GeoLo, hi, m, n, o, f[1], f[2]),
+       ranlo  |-> RangeLoB(GeoLo, hi, m, n, o, f[1], f[2], f[3]),
+       ranhi  |-> RangeHiB(GeoLo, hi, m, n, o, f[1], f[2], f[4])]
+GeoCases(k) ==
+  LET ok == SelectSeq(FlagSeq, LAMBDA f : FlagsOK(k.shapeIn[1], k.shapeOut[1], f[1], f[2], f[3], f[4]))
+  IN  [i \in 1..Len(ok) |-> GeoCase(k, ok[i])]
+
 Observe(k, q) ==
-  IF q = "call" THEN
+  IF q = "geometry" THEN [q |-> q, adm |-> TRUE, geo |-> GeoCases(k)]
+  ELSE IF q = "call" THEN
     IF Adm(k) THEN [q |-> q, adm |-> TRUE, mat |-> Mat(k), aff |-> AffV(k)]
               ELSE [q |-> q, adm |-> FALSE]
   ELSE \* "inverse"
@@ -40,6 +58,7 @@ Observe(k, q) ==
 
 QueryEnabled(k, q) ==
   IF q = "call" THEN TRUE
+  ELSE IF q = "geometry" THEN Len(k.shapeIn) = 1 /\ k.dir = "forward" /\ k.c = 0 /\ k.mode = "constant"
   ELSE k.dir = "forward" /\ Adm(k) /\ Adm(InvCfg(k))
 
 Init == cfg \in Cfgs /\ obs = NoObs
@@ -47,7 +66,7 @@ Query(q) == /\ obs = NoObs
             /\ QueryEnabled(cfg, q)
             /\ obs' = Observe(cfg, q)
             /\ UNCHANGED cfg
-Next == \E q \in {"call", "inverse"} : Query(q)
+Next == \E q \in {"call", "inverse", "geometry"} : Query(q)
 Spec == Init /\ [][Next]_vars
 
 (* ------------------------- the statement of C16 -------------------------- *)
@@ -78,6 +97,30 @@ OverlapCopied ==
                 j == 1 + FlatIx(1)
             IN  /\ obs.aff[i] = 0
                 /\ \A l \in 1..N1(cfg) : obs.mat[i][l] = (IF l = j THEN 1 ELSE 0)
+
+\* "the resizing operator's range covers the enlarged physical domain with unchanged cell sizes":
+\* laws of the range geometry for every combination of nodes-on-boundary flags
+GeometryLaws ==
+  obs.q = "geometry" =>
+    \A i \in 1..Len(obs.geo) :
+      LET g == obs.geo[i]
+          m == cfg.shapeIn[1]  n == cfg.shapeOut[1]  o == cfg.offs[1]
+      IN  \* the range is a uniform partition with the SAME cell side and the given flags
+          /\ g.cell = GeoH
+          /\ CellSideB(g.ranlo, g.ranhi, n, g.rL, g.rR) = g.cell
+          /\ Node0B(g.ranlo, g.ranhi, n, g.rL, g.rR) = g.node0
+          \* the copied block sits at the same physical grid points: range node o (growing) resp. 0 (shrinking)
+          \* is domain node 0 resp. o
+          /\ (IF n >= m THEN QAdd(g.node0, QMul(QI(o), g.cell)) ELSE QSub(g.node0, QMul(QI(o), g.cell)))
+               = Node0B(g.lo, g.hi, m, g.dL, g.dR)
+          \* going back with the same offset and the domain's flags recovers the domain (.inverse constructible)
+          /\ RangeLoB(g.ranlo, g.ranhi, n, m, o, g.rL, g.rR, g.dL) = g.lo
+          /\ RangeHiB(g.ranlo, g.ranhi, n, m, o, g.rL, g.rR, g.dR) = g.hi
+          \* without flags this is the plain formula
+          /\ (g.dL + g.dR + g.rL + g.rR = 0 =>
+                g.ranlo = RangeLo(g.lo, g.hi, m, n, o) /\ g.ranhi = RangeHi(g.lo, g.hi, m, n, o))
+          \* growing: the range covers the domain
+          /\ (n >= m => QLe(g.ranlo, g.lo) \/ g.rL > g.dL)
 
 (* ------------------------- sanity laws of the reference ------------------ *)
 RowSum(M, i, n) == LET RECURSIVE S(_)
